@@ -1,0 +1,43 @@
+//go:build verif
+
+// Contracts for package logic, read by /verif/gvc (comment-only file; it declares
+// nothing and is compiled only with -tags verif).
+package logic
+
+// MatchesCondition against the documented operator table
+// (website/content/docs/queries/operations.md) and property C08: operands that are
+// not numbers or numeric text never satisfy an ordering test.
+
+//@ func MatchesCondition
+//@   property C08
+//@   option prelude=json
+//@   option load=gripql,jsonpath,gdbi
+//@   nopanic
+//@   requires nonnil: cond != nil
+//@   let val = pathLookup(trav, cond.Key)
+//@   let c = asJSON(cond.Value)
+//@   let lo = anyat(alist(c), 0)
+//@   let hi = anyat(alist(c), 1)
+//@   let pair = isAList(c) && slen(alist(c)) == 2 && isnum(lo) && isnum(hi) && isnum(val)
+//@   ensures eq:  cond.Condition == gripql.Condition_EQ  ==> (result <==> deq(val, c))
+//@   ensures neq: cond.Condition == gripql.Condition_NEQ ==> (result <==> !deq(val, c))
+//@   ensures gt:  cond.Condition == gripql.Condition_GT  ==> (result <==> (isnum(val) && isnum(c) && fgt(num(val), num(c))))
+//@   ensures gte: cond.Condition == gripql.Condition_GTE ==> (result <==> (isnum(val) && isnum(c) && fge(num(val), num(c))))
+//@   ensures lt:  cond.Condition == gripql.Condition_LT  ==> (result <==> (isnum(val) && isnum(c) && flt(num(val), num(c))))
+//@   ensures lte: cond.Condition == gripql.Condition_LTE ==> (result <==> (isnum(val) && isnum(c) && fle(num(val), num(c))))
+//@   ensures inside:  cond.Condition == gripql.Condition_INSIDE  ==> (result <==> (pair && fgt(num(val), num(lo)) && flt(num(val), num(hi))))
+//@   ensures outside: cond.Condition == gripql.Condition_OUTSIDE ==> (result <==> (pair && (flt(num(val), num(lo)) || fgt(num(val), num(hi)))))
+//@   ensures between: cond.Condition == gripql.Condition_BETWEEN ==> (result <==> (pair && fge(num(val), num(lo)) && flt(num(val), num(hi))))
+//@   ensures within:  cond.Condition == gripql.Condition_WITHIN  ==> (result <==>
+//@       (isAList(c) && (exists j :: 0 <= j && j < slen(alist(c)) && deq(val, anyat(alist(c), j)))))
+//@   ensures without: cond.Condition == gripql.Condition_WITHOUT ==> (result <==>
+//@       !(isAList(c) && (exists j :: 0 <= j && j < slen(alist(c)) && deq(val, anyat(alist(c), j)))))
+//@   ensures contains: cond.Condition == gripql.Condition_CONTAINS ==> (result <==>
+//@       (isAList(val) && (exists j :: 0 <= j && j < slen(alist(val)) && deq(anyat(alist(val), j), c))))
+//@   ensures unknown: (cond.Condition < 1 || cond.Condition > 12) ==> !result
+//@   loop 1 invariant within: found <==> (exists j :: 0 <= j && j <= rangeindex && deq(val, anyat(alist(c), j)))
+//@   loop 1 invariant idx: 0 - 1 <= rangeindex && rangeindex < slen(alist(c)) || slen(alist(c)) == 0 && rangeindex == 0 - 1
+//@   loop 2 invariant without: found <==> (exists j :: 0 <= j && j <= rangeindex && deq(val, anyat(alist(c), j)))
+//@   loop 2 invariant idx: 0 - 1 <= rangeindex && rangeindex < slen(alist(c)) || slen(alist(c)) == 0 && rangeindex == 0 - 1
+//@   loop 3 invariant contains: found <==> (exists j :: 0 <= j && j <= rangeindex && deq(anyat(alist(val), j), c))
+//@   loop 3 invariant idx: 0 - 1 <= rangeindex && rangeindex < slen(alist(val)) || slen(alist(val)) == 0 && rangeindex == 0 - 1
